@@ -23,6 +23,8 @@ META = {
     "level_note": "Trusts Python's special-method dispatch (dunder lookup bypasses __getattribute__ on the type). "
     "User subclasses of Undefined are outside the claim.",
 }
+META["technique"] += '; narrowing-before-use dataflow for values that may be Undefined (context.resolve and lambda results); operand-normalisation dominance in the comparison helpers; presence-by-key rule on the lookup functions'
+META["level_text"] += " Also decided, as necessary conditions of the second sentence (R4b, R5, R6): values that may be an Undefined of the configured class are narrowed before they are compared, hashed or stringified; _eq/_lt/_contains resolve __liquid__() before Python comparison can consult an undefined operand's own __eq__; lookups decide 'missing' from the failed key, never from a nil/false value."
 
 U = "liquid2.undefined.Undefined"
 VALUE_HOOKS = {"__contains__", "__eq__", "__getitem__", "__len__", "__iter__", "__str__", "__int__", "__hash__", "__reversed__", "__bool__"}
@@ -459,6 +461,36 @@ def run(prog: Program, res: Result) -> None:  # noqa: PLR0912, PLR0915
                 else:
                     res.fail("C16.R5", file=h.file, line=cmp_.lineno, qualname=hname, construct=f"{hname}: `{norm(cmp_, 50)}` with raw operand {o.id}", message=f"`{norm(cmp_, 50)}` can run with `{o.id}` still an Undefined object: Python then asks that object's __eq__, which answers differently for Undefined (== nil) and FalsyStrictUndefined (== false) - a falsy-strict render succeeds with output that differs from the default policy", what=what)
     res.floor("C16.R5", "operand uses in comparison helpers", n_r5, 4)
+
+    # ------------------------------------------------------------------ R7 nothing swallows the strict policy's error
+    res.rule("C16.R7", "no except clause in liquid2 that can catch UndefinedError (UndefinedError itself, a base class of it, Exception, BaseException or a bare except) finishes without re-raising: a swallowed UndefinedError lets a strict render succeed with a fallback value the default policy would not produce")
+    ue = prog.cls("liquid2.exceptions.UndefinedError")
+    catchers = {c.name for c in prog.mro(ue)} | {"Exception", "BaseException"}
+    n_h = 0
+    n_sw = 0
+    for mod_ in prog.modules.values():
+        for h in ast.walk(mod_.tree):
+            if not isinstance(h, ast.ExceptHandler):
+                continue
+            n_h += 1
+            names = [norm(x).split(".")[-1] for x in (h.type.elts if isinstance(h.type, ast.Tuple) else ([h.type] if h.type is not None else []))]
+            hit = [n for n in names if n in catchers] or (["<bare except>"] if h.type is None else [])
+            if not hit:
+                continue
+            fi = prog.enclosing_function(mod_, h)
+            q = fi.qualname if fi else "<module>"
+            site = f"{mod_.relpath}:{h.lineno} {q}"
+            what = f"`except {', '.join(names) or ''}` in {q} re-raises"
+            if any(isinstance(x, ast.Raise) for x in ast.walk(h)):
+                res.ok("C16.R7", site, what, "the handler raises (adds context / converts)")
+            else:
+                n_sw += 1
+                res.fail("C16.R7", file=mod_.relpath, line=h.lineno, qualname=q, construct=f"except {', '.join(hit)} without re-raise in {q}", message=f"{q} catches {', '.join(hit)} and carries on: an UndefinedError raised by the strict policy inside the try block is swallowed and replaced by the handler's fallback, so a strict render succeeds with output that differs from the default policy's", what=what)
+    res.floor("C16.R7", "except clauses scanned", n_h, 60)
+    probe = ast.parse("try:\n    x()\nexcept (ValueError, LiquidError):\n    y = 1\n")
+    ph = [h for h in ast.walk(probe) if isinstance(h, ast.ExceptHandler)][0]
+    if not any(norm(x).split(".")[-1] in catchers for x in ph.type.elts):
+        raise AnalysisError("C16.R7 matcher self-check failed")
 
     # ------------------------------------------------------------------ R6 presence is decided by key, not by value
     res.rule("C16.R6", "variable lookup decides 'missing' from the failed key/index lookup (KeyError/IndexError/TypeError, `in`), never from the looked-up value: a variable bound to nil/false/0/'' exists")
